@@ -148,6 +148,38 @@ CORPUS = [
 ]
 
 
+def explore_cases(rng, focus, quick):
+    '''small single-run configurations explored bounded-exhaustively (all schedules with at
+    most k deviations from the default schedule)'''
+    shapes = [
+        {'n': 2, 'hard': [[], [0]], 'soft': [[], []], 'workers': 2},
+        {'n': 3, 'hard': [[], [0], []], 'soft': [[], [], [1]], 'workers': 2},
+        {'n': 3, 'hard': [[], [], [0, 1]], 'soft': [[], [], []], 'workers': 2},
+        {'n': 3, 'hard': [[], [0], [1]], 'soft': [[], [], [0]], 'workers': 3},
+        {'n': 4, 'hard': [[], [0], [0], [1]], 'soft': [[], [], [1], [2]], 'workers': 2},
+    ]
+    out = []
+    picks = shapes[:2] if quick else shapes
+    for sh in picks:
+        for variant in range(1 if quick else 3):
+            c = dict(sh)
+            n = c['n']
+            outcomes = ['done'] * n if variant == 0 else gen_outcomes(rng, n, 0.5)
+            c['runs'] = [{'outcomes': outcomes, 'strategy': 'script', 'seed': 0}]
+            if focus == 'C04' or (focus == 'C03' and variant == 2):
+                # a carried environment: everything DONE with consistent clocks, one entry lost
+                init, clk = [], 0
+                for t in range(n):
+                    init.append(['DONE', 1, clk + 1, clk + 2])
+                    clk += 2
+                lost = rng.randrange(n)
+                init[lost] = None
+                c['init'], c['clock0'], c['started0'] = init, clk, [1] * n
+            c['explore'] = {'k': 1 if quick else 2, 'budget': 400 if quick else 12000, 'focus': focus}
+            out.append(c)
+    return out
+
+
 # --------------------------------------------------------------------------
 # running the implementation
 
@@ -296,6 +328,16 @@ def consistent_sub(env, full, hard, tasks):
     return True
 
 
+class FakeCtx:
+    '''collects oracle failures inside the child process (bounded-exhaustive exploration)'''
+
+    def __init__(self):
+        self.failures = []
+
+    def oracle_failure(self, what, case, key=None):
+        self.failures.append((what, case, key))
+
+
 ORACLES = {'C01': oracle_c01, 'C02': oracle_c02, 'C03': oracle_c03, 'C04': oracle_c04}
 
 
@@ -364,7 +406,34 @@ def run(ctx, focus):
     cases = [dict(c) for c in CORPUS]
     for i in range(ncases):
         cases.append(gen_case(ctx.rng, focus, big=(not quick and i % 5 == 0)))
+    ecases = explore_cases(ctx.rng, focus, quick)
+    eres, ehung, ecode, eout = run_impl(ctx, ecases, timeout=100 if quick else 2400)
+    explored = 0
+    for ec, er in zip(ecases, eres):
+        if not er.get('ok'):
+            ctx.violations.append(('harness', 'exploration error: ' + str(er)[:600], ec))
+            continue
+        explored += er['explored']
+        ctx.count('explored_schedules', er['explored'])
+        for what, rcase, key in er['failures']:
+            ctx.oracle_failure(what, rcase, key=key)
+        ctx.notes.append(f"bounded-exhaustive: n={ec['n']} workers={ec['workers']} outcomes={ec['runs'][0]['outcomes']}"
+                         f"{' carried env' if ec.get('init') else ''}: all {er['explored']} schedules with <= {er['k']} "
+                         f"deviations from the default schedule ({'complete' if er['complete'] else 'budget reached'}, "
+                         f"up to {er['max_events']} events)")
+    if ehung or ecode != 0 or len(eres) != len(ecases):
+        what = f'bounded-exhaustive exploration did not come back (hang={ehung}, exit={ecode}): {eout[-400:]}'
+        if focus == 'C03':
+            ctx.oracle_failure(what, ecases[len(eres)] if len(eres) < len(ecases) else None, key='hang')
+        else:
+            ctx.violations.append(('harness', what, None))
+    ctx.extra['explored_schedules_bounded_exhaustive'] = explored
     results, hung, code, out = run_impl(ctx, cases, timeout=100 if quick else 1500)
+    # a sample of the explored runs is replayed on the model as well
+    for ec, er in zip(ecases, eres):
+        for sres in er.get('sample_runs', []) if er.get('ok') else []:
+            cases.append(ec)
+            results.append({'ok': True, 'runs': sres})
     if hung or code != 0 or len(results) != len(cases):
         k = len(results)
         what = (f'the run of case {k} did not come back (hang={hung}, exit={code}): '
